@@ -348,6 +348,20 @@ def random_jobs(rnd: random.Random, n: int) -> list:
             burst = rnd.choice([30, 120, 260])
             cmds = [["connect", "ok"]] + [["broker_msg", f"{inp}/1/1/1/0/2", list(str(i).encode())] for i in range(burst)]
             cmds += [["read"]] * (burst + 1)
+        if k % 40 in (9, 19, 29):
+            # the same transport object is disconnected and connected again: what was received and not yet read is
+            # still delivered, in order, exactly once; a read that was already waiting gets the next message
+            t1, t2 = f"{inp}/1/1/1/0/2", f"{inp}/2/1/1/1/0"
+            if k % 40 == 9:
+                cmds = [["connect", "ok"], ["broker_msg", t1, list(b"first")], ["broker_msg", t2, list(b"second;x")], ["disconnect"],
+                        ["connect", "ok"], ["read"], ["read"], ["broker_msg", t1, list(b"third")], ["read"]]
+            elif k % 40 == 19:
+                cmds = [["connect", "ok"], ["read"], ["disconnect"], ["connect", "ok"], ["broker_msg", t1, list(b"after")],
+                        ["broker_msg", t2, list(b"later")], ["read"]]
+            else:
+                cmds = [["connect", "ok"], ["broker_msg", t1, list(b"1")], ["read"], ["broker_msg", t2, list(b"2")], ["disconnect"],
+                        ["connect", "ok"], ["broker_msg", t1, list(b"3")], ["read"], ["read"], ["disconnect"], ["connect", "ok"], ["read"],
+                        ["broker_msg", t2, list(b"4")]]
         if rnd.random() < 0.6:
             cmds.append(["disconnect"])
         jobs.append(("client" if k % 3 else "minimal", inp, outp, cmds))
